@@ -282,6 +282,7 @@ func (c *Ctx) finish(verifDir string, t0 time.Time, writeEvidence bool, extraCfg
 		}
 		cov["advisory"] = as
 	}
+	cov["values_printed_under_frozen_names"] = c.P.Renamed
 	ev := Evidence{PropertyID: c.Prop, Tier: c.Tier, Seed: seedFromEnv(), Level: "other", Coverage: cov,
 		Assumptions: commonAssumptions, WallS: time.Since(t0).Seconds(), Violations: len(viol)}
 	if writeEvidence {
